@@ -82,7 +82,10 @@ fn wire_class(s: &str) -> &'static str {
     if (hit3 || hit4) && wire_ok(&d) {
         if hit1 || hit4 { return "caret-then-codepage-letter"; }
         if hit2 { return "colour8-desync"; }
-        return if b.chars().any(is_ni) { "codec-not-inverting" } else { "trail-byte-5e" };
+        if b.chars().any(is_ni) { return "codec-not-inverting"; }
+        // the recorded finding needs the trail byte 0x5E directly in front of a marker letter in the escaped text
+        let es: Vec<char> = g1(escape, &b).unwrap_or_default().chars().collect();
+        return if es.windows(2).any(|w| is_t5(w[0]) && "LGCETBJHSK8".contains(w[1])) { "trail-byte-5e" } else { "other" };
     }
     "other"
 }
